@@ -320,6 +320,7 @@ type (
 	Duration   int64
 	CustomA    struct{ V string }
 	CustomB    bool
+	Custom_C   struct{ V string }
 )
 
 func (d Duration) String() string { return time.Duration(d).String() }
